@@ -96,7 +96,7 @@ pub const C22: Check = Check {
     assumptions: &["rsync stderr is line based, so remote text cannot contain a raw newline within one message"],
     shards: |_| 8,
     watchdog: |t| Duration::from_secs(t.pick(600, 3600)),
-    budget: |t| Duration::from_secs(t.pick(40, 600)),
+    budget: |t| Duration::from_secs(t.pick(40, 300)),
     run: run_c22,
     crash_is_violation: false,
     finish: None,
@@ -286,7 +286,7 @@ pub const C21: Check = Check {
                    "CSV/plain-text formats are parsed by field position; their well-formedness for hostile TAL names is not claimed by the property"],
     shards: |_| 8,
     watchdog: |t| Duration::from_secs(t.pick(600, 3600)),
-    budget: |t| Duration::from_secs(t.pick(45, 600)),
+    budget: |t| Duration::from_secs(t.pick(45, 300)),
     run: run_c21,
     crash_is_violation: false,
     finish: None,
